@@ -8,6 +8,7 @@ LETTERS = {
     "int8": [-128, 127, 0], "int16": [-32768, 3, 32767], "int32": [-2 ** 31, 2 ** 31 - 1, -1], "int64": [-2 ** 63, 2 ** 63 - 1, 5],
     "uint8": [0, 255, 7], "uint16": [0, 65535, 9], "uint32": [0, 2 ** 32 - 1, 11], "uint64": [0, 2 ** 64 - 1, 13],
     "float32": [1.5, float("nan"), -0.0], "float64": [float("inf"), float("nan"), -2.25],
+    "float16": [1.5, float("nan"), -0.0],
 }
 SMALL = {"bool": [False, True, True]}
 # neighbouring values: distinct, but equal after a round trip through a narrower / floating representation
@@ -18,11 +19,12 @@ NEAR = {
     "uint8": [254, 255, 0], "uint16": [65534, 65535, 0], "uint32": [2 ** 32 - 2, 2 ** 32 - 1, 2 ** 24 + 1],
     "uint64": [2 ** 63, 2 ** 63 + 1, 2 ** 64 - 1],
     "float32": [1.0, 1.0000001192092896, 16777216.0], "float64": [1.0, 1.0000000000000002, 9007199254740992.0],
+    "float16": [1.0, 1.0009765625, 2048.0],
 }
 
 
-ZEROS = {"float32": [0.0, -0.0, 1.0], "float64": [0.0, -0.0, 1.0]}
-INF = {"float32": [float("inf"), float("-inf"), 1.0], "float64": [float("inf"), float("-inf"), 1.0]}
+ZEROS = {"float32": [0.0, -0.0, 1.0], "float64": [0.0, -0.0, 1.0], "float16": [0.0, -0.0, 1.0]}
+INF = {"float32": [float("inf"), float("-inf"), 1.0], "float64": [float("inf"), float("-inf"), 1.0], "float16": [float("inf"), float("-inf"), 1.0]}
 
 
 def letters(dtype, small=False):
